@@ -218,4 +218,21 @@ example : NnValid .cloneSet 10 (some 3) := by
   intro k hk; cases hk; decide
 example : upgrade .cloneSet (Ctx.mk 10 0 0 5 5 (pct 100) (pct 50) none) = some (pct 50) := by decide
 
+
+/-- **C01 (scaling)** `ParseIntegerAsPercentageIfPossible` always answers with a percentage — never with the bare
+    stable count — so the partition written for a percentage plan entry follows the workload's size. -/
+theorem parsePct_is_percentage (stable all : Int) (canary : IntOrPct) : ∃ q, parsePct stable all canary = .pct q := by
+  unfold parsePct
+  split
+  · exact ⟨_, rfl⟩
+  · split
+    · exact ⟨_, rfl⟩
+    · dsimp only; split <;> exact ⟨_, rfl⟩
+
+/-- the CloneSet partition computed for a percentage plan entry is a percentage, for every size and no-need-update count -/
+theorem cloneSet_percent_partition_is_percentage (R p : Int) (nn : Option Int) :
+    ∃ q, desKnob .cloneSet R (.pct p) nn = .pct q := by
+  unfold desKnob
+  exact parsePct_is_percentage _ _ _
+
 end RV.Props.C01
